@@ -260,7 +260,11 @@ func c17Doc(c *fw.Ctx) (corpusDoc, string) {
 		// one text line of 4.5 KiB up to just under the scanner's 64 KiB limit, made of multi-byte characters: read
 		// boundaries fall inside a character while the scanner is still looking for the end of the line
 		unit := fw.Pick(c.R, []string{"é", "日本", "😀x", "ü—"})
-		target := fw.Pick(c.R, []int{c.R.Range(4500, 9500), c.R.Range(4500, 9500), c.R.Range(16500, 20000), c.R.Range(33000, 40000), c.R.Range(60000, 63000), c.R.Range(65000, 66500), c.R.Range(70000, 90000)}) // the last two are at and beyond what the scanner buffers: then every delivery fails alike
+		target := fw.Pick(c.R, []int{c.R.Range(4500, 9500), c.R.Range(4500, 9500), c.R.Range(16500, 20000), c.R.Range(33000, 40000), c.R.Range(60000, 63000)})
+		if (c.Idx/int64(8*len(corpusFormats)))%2 == 1 {
+			// every other long-line document is at or beyond what the scanner buffers: then every delivery fails alike
+			target = fw.Pick(c.R, []int{c.R.Range(65000, 66500), c.R.Range(70000, 90000)})
+		}
 		long := strings.Repeat(unit, target/len(unit)+1)
 		d := corpusDoc{Format: format, Ext: corpusExt[format], Read: corpusReader(format, astisub.TeletextOptions{}), Origin: "long multi-byte line"}
 		switch format {
